@@ -458,6 +458,11 @@ func (l *Lexer) NextToken() token.Token {
 		}
 	}
 
+	if t.Type == "" {
+		// Characters that only exist as part of a longer operator ("|", "&", "^", "*", "<<", ">>")
+		t = newToken(token.ILLEGAL, l.char, line, index)
+	}
+
 	l.readChar()
 	t.File = l.file
 
